@@ -242,7 +242,11 @@ func runC13(c *Case) {
 	ro.Close()
 	checkAsserts("close")
 	ro = nil
-	c.Count("requests_by_readonly_client", int64(len(w.st.Log())))
+	for _, ev := range w.st.Log() {
+		if ev.RO {
+			c.Count("readonly_handle_requests_"+ev.Op, 1)
+		}
+	}
 	if unmerged >= 2 && sawWrite && sawVacuum && sawRefresh {
 		c.NonTrivial(fmt.Sprint(nver, epn, prog))
 	}
